@@ -916,6 +916,21 @@ class Sim:
         if not helper.done:
             helper.resume()
 
+    def quiescent(self):
+        """ No message queued or in flight anywhere, no hand-shake in progress. """
+        for helper in self.helpers:
+            if not helper.done:
+                return False
+        for inst in self.instances.values():
+            if not inst.alive:
+                continue
+            for proxy in inst.proxies_seen:
+                if proxy.closed or proxy.dead:
+                    continue
+                if proxy.busy or proxy.queue:
+                    return False
+        return True
+
     def live(self):
         return [i for i in self.instances.values() if i.alive]
 
@@ -1111,6 +1126,11 @@ class Sim:
             helper.on_done = lambda: self._proxy_done(proxy)
             self._helper_step(helper)
             return
+        if etype == InternalEventHeaders.PUBLICATION:
+            for obs in self.observers:
+                f = getattr(obs, 'on_proxy_publish', None)
+                if f:
+                    f(self, inst, proxy, body)
         try:
             with self.enter(inst):
                 proxy.process_event(event)
